@@ -11,6 +11,8 @@ for pid in ALL:
     spec = props.PROPERTIES.get(pid)
     if not spec or spec.get("disabled"):
         continue
+    if not os.path.exists(os.path.join(HERE, "locks", f"{pid}.json")):
+        continue  # claimed only once the check has been run green on the unchanged tree and locked
     checks.append(dict(
         property_id=pid,
         engine="pyvc",
